@@ -230,3 +230,100 @@ func VH_C15_sam_wrap() {
 	}
 	vAssert("C15.samwrap.rebreak-only", got == exp)
 }
+
+// VH_C02_two_insertions: a record with up to two insertions (M I M I M, every length symbolic, segments
+// optional) together with a second record covering an arbitrary stretch: every row has to be re-gapped at
+// several insertion sites that belong to the other row.
+func VH_C02_two_insertions() {
+	L := vParam("L")
+	ref := make([]byte, L)
+	for i := range ref {
+		ref[i] = vNuc(vName("ref", i), "ACGT")
+	}
+	// record A
+	var a vRec
+	a.pos = vChoice("posA", L)
+	shape := []int{vM, vI, vM, vI, vM}
+	qlen, rlen := 0, 0
+	var cigA biogosam.Cigar
+	for k, t := range shape {
+		var n int
+		if t == vI {
+			n = 1 + vChoice(vName("lenA", k), 2)
+		} else {
+			n = vChoice(vName("lenA", k), 3) // 0 = segment absent
+		}
+		if n == 0 {
+			continue
+		}
+		a.types = append(a.types, t)
+		a.lens = append(a.lens, n)
+		qlen += n
+		if t == vM {
+			rlen += n
+		}
+		cigA = append(cigA, biogosam.NewCigarOp(biogosam.CigarOpType(t), n))
+	}
+	vAssume(a.pos+rlen <= L)
+	a.seq = make([]byte, qlen)
+	for i := range a.seq {
+		a.seq[i] = vNuc(vName("seqA", i), vSeqAlphabet)
+	}
+	a.rec = biogosam.Record{Name: "query", Pos: a.pos, Cigar: cigA, Seq: biogosam.NewSeq(a.seq)}
+	// record B: one match block anywhere
+	var b vRec
+	b.pos = vChoice("posB", L)
+	nb := 1 + vChoice("lenB", L)
+	vAssume(b.pos+nb <= L)
+	b.types, b.lens = []int{vM}, []int{nb}
+	b.seq = make([]byte, nb)
+	for i := range b.seq {
+		b.seq[i] = vNuc(vName("seqB", i), vSeqAlphabet)
+	}
+	b.rec = biogosam.Record{Name: "query", Pos: b.pos, Cigar: biogosam.Cigar{biogosam.NewCigarOp(biogosam.CigarMatch, nb)}, Seq: biogosam.NewSeq(b.seq)}
+	vs := []vRec{a, b}
+	recs := []biogosam.Record{a.rec, b.rec}
+	if vBool("BFirst") {
+		vs = []vRec{b, a}
+		recs = []biogosam.Record{b.rec, a.rec}
+	}
+	ins, unique := vInsertions(vs, L)
+	vAssume(unique)
+	cSR := make(chan samRecords, 1)
+	cSR <- samRecords{records: recs, idx: 0}
+	close(cSR)
+	cPair := make(chan alignPair, 1)
+	cErr := make(chan error, 8)
+	refCopy := append([]byte{}, ref...)
+	blockToPairwiseAlignment(cSR, cPair, cErr, refCopy, false)
+	vAssert("C02.2ins.one-pair", len(cPair) == 1 && len(cErr) == 0)
+	if len(cPair) != 1 {
+		return
+	}
+	pair := <-cPair
+	R, Q := pair.ref, pair.query
+	padrow, err := getSeqFromBlock(recs, L, false)
+	vAssert("C02.2ins.toma-ok", err == nil && len(padrow) == L)
+	padrow = swapInNs(padrow)
+	total := L
+	for p := 0; p <= L; p++ {
+		total += len(ins[p])
+	}
+	vAssert("C02.2ins.length-is-reference-plus-insertions", len(R) == total && len(Q) == total)
+	if len(R) != total || len(Q) != total {
+		return
+	}
+	col := 0
+	for p := 0; p <= L; p++ {
+		for _, bb := range ins[p] {
+			vAssert("C02.2ins.reference-gap-exactly-at-insertion-columns", R[col] == '-')
+			vAssert("C02.2ins.inserted-bases-in-order", Q[col] == bb)
+			col++
+		}
+		if p < L {
+			vAssert("C02.2ins.degapped-reference-is-the-reference", R[col] == ref[p])
+			vAssert("C02.2ins.query-without-insertion-columns-is-toMultiAlign-pad-row", Q[col] == padrow[p])
+			col++
+		}
+	}
+}
